@@ -92,7 +92,7 @@ class KeyWorld:
             elif fmt == 'xprv':
                 k = HDKey(m.wif_private(), network=self.net)
             else:
-                path = rng.choice(["m/44'/0'/0'/0/5", "m/84'/1'/2'", "m/0", "m/48'/0'/0'/2'/1/7"])
+                path = rng.choice(["m/44'/0'/5", "m/84'/1'", "m/0", "m/7/2147483647'"])
                 self.desc['path'] = path
                 cur = m
                 self.others['anc0'] = m.secret
@@ -249,10 +249,12 @@ def replay_key_history(start, hist, seed):
         out = None
         err = ''
         kind_before, shadow_before, others_before, nchild_before = w.kind, w.shadow, dict(w.others), w.nchild
+        new_subject = False
         try:
             out, new = w.perform(c)
             if new is not None:
                 w.subj = new
+                new_subject = True
         except Exception as e:              # any exception = the call was refused
             ok = False
             err = repr(e)[:100]
@@ -265,10 +267,11 @@ def replay_key_history(start, hist, seed):
             nd.in_bytes(pickle.dumps(w.subj), fh, 'pickle')
         except Exception:
             pass
-        try:
-            nd.in_graph(copy.deepcopy(w.subj), fh, 'deepcopy')
-        except Exception:
-            pass
+        if new_subject or c is hist[-1]:        # (a deep copy of an unchanged object is scanned once, at the end)
+            try:
+                nd.in_graph(copy.deepcopy(w.subj), fh, 'deepcopy')
+            except Exception:
+                pass
         os_, oo = split(fo)
         hs, ho = split(fh)
         steps.append({'c': c, 'ok': ok, 'os': os_, 'oo': oo, 'hs': hs, 'ho': ho})
